@@ -117,8 +117,9 @@ def run_driver(v, hbin, driver, name, signature):
     with open(slim, "w") as w:
         for r in read_ndjson(trace):
             g = r["got"]
-            got = {"class": g["class"], "value": g.get("value", "NONE"), "kind": g.get("kind", ""),
-                   "path": g.get("path") or [], "vtext": g.get("vtext", "")}
+            got = {"class": g["class"], "kind": g.get("kind", ""), "vtext": g.get("vtext", ""), "text": g.get("text", "")[:300],
+                   "vjson": json.dumps(g.get("value"), sort_keys=True, separators=(",", ":")),
+                   "pjson": json.dumps(g.get("path") or [], separators=(",", ":"))}
             w.write(json.dumps({"def": r["def"], "line": r["line"], "env": r.get("env") or {}, "got": got,
                                 "argv": r["argv_bytes"]}) + "\n")
     r = run_tlc("CmdLineTrace", "CmdLineTrace.cfg", env={"TRACE": slim, "DEFS": dpath}, workers=1,
@@ -130,11 +131,12 @@ def run_driver(v, hbin, driver, name, signature):
         if not bad and not r["ok"]:
             raise ToolError("trace validation failed without a REJECT line:\n" + r["tail"])
         recs = list(read_ndjson(slim))
+        dmap = {d["id"]: d for d in ddefs}
         for ix, exp in bad:
             rec = recs[ix - 1]
             if rec.get("outside"):
                 continue
-            m = {"def": rec["def"], "line": rec["line"], "env": rec["env"], "got": rec["got"],
+            m = {"def": rec["def"], "def_full": dmap[rec["def"]], "line": rec["line"], "env": rec["env"], "got": rec["got"],
                  "argv_bytes": rec["argv"], "expect": exp, "from": "trace-validation"}
             sig = signature(m) if signature else {"rule": "trace_rejected"}
             v.report(sig, m)
